@@ -1,6 +1,11 @@
 //! `mc <ID> --tier quick|thorough` / `mc <ID> --replay <file>`
+mod c01;
+mod c02;
 mod c04;
+mod interp;
+mod pushref;
 mod util;
+mod vm;
 
 use mcx::Run;
 
@@ -52,6 +57,8 @@ fn main() {
         });
         let ok = match id.as_str() {
             "C04" => c04::replay(&v["replay"]),
+            "C01" => c01::replay(c01::Mode::C01, &v["replay"]),
+            "C02" => c01::replay(c01::Mode::C02, &v["replay"]),
             _ => {
                 eprintln!("no replay for {id}");
                 std::process::exit(2)
@@ -62,6 +69,8 @@ fn main() {
     let mut run = Run::new(&id, &tier);
     match id.as_str() {
         "C04" => c04::run(&mut run),
+        "C01" => c01::run(c01::Mode::C01, &mut run),
+        "C02" => c01::run(c01::Mode::C02, &mut run),
         _ => {
             eprintln!("unknown check {id}");
             std::process::exit(2)
